@@ -11,6 +11,8 @@ mod c12;
 mod c13;
 mod c14;
 mod c15;
+mod c19;
+mod c20;
 
 use common::*;
 
@@ -33,6 +35,8 @@ fn main() {
         "C13" => c13::run(&mut em, &mut rng, thorough),
         "C14" => c14::run(&mut em, &mut rng, thorough),
         "C15" => c15::run(&mut em, &mut rng, thorough),
+        "C19" => c19::run(&mut em, &mut rng, thorough),
+        "C20" => c20::run(&mut em, &mut rng, thorough),
         _ => { eprintln!("unknown property {}", prop); std::process::exit(2); }
     }
     em.finish();
